@@ -87,7 +87,9 @@ static inline void* valloc_new_block(Valloc* v, size_t alignment, size_t size, u
   if (v->trace) {
     fprintf(v->trace, "A%zu:%c:%zu ", h->serial, magic == VALLOC_MAGIC_ALIGNED ? 'a' : 'p', size);
   }
-  memset((void*)user, 0xA5, size); // dirty memory: calloc must really clear
+  if (size <= (1U << 22)) {
+    memset((void*)user, 0xA5, size); // dirty memory: calloc must really clear (huge blocks are left untouched)
+  }
   return (void*)user;
 }
 
